@@ -134,6 +134,9 @@ func (obj *SparseReal32Vector) SET(x *SparseReal32Vector) {
   }
 }
 func (obj *SparseReal32Vector) SLICE(i, j int) *SparseReal32Vector {
+  if i < 0 || i > j || j > obj.n {
+    panic(fmt.Errorf("slice (%d:%d) out of bounds for vector of dimension %d", i, j, obj.n))
+  }
   r := nilSparseReal32Vector(j-i)
   for it := obj.indexIteratorFrom(i); it.Ok(); it.Next() {
     if it.Get() >= j {
